@@ -30,7 +30,7 @@ import prop_lib as pl
 
 VFILES = ["PropTree/PropModel.v", "PropTree/DocSpec.v", "PropTree/PropProofs.v",
           "PropTree/QuoteProofs.v", "PropTree/RebuildProofs.v", "PropTree/ApiProofs.v", "PropTree/WfProofs.v",
-          "PropTree/CopyProofs.v", "PropTree/DescGrammar.v", "PropTree/GrammarProofs.v",
+          "PropTree/CopyProofs.v", "PropTree/FrameProofs.v", "PropTree/DescGrammar.v", "PropTree/GrammarProofs.v",
           "PropTree/HashModel.v", "PropTree/HashProofs.v",
           "Properties_C13.v"]
 
